@@ -20,3 +20,5 @@ pub mod c18;
 pub mod c04;
 pub mod c16;
 pub mod c19;
+pub mod c03;
+pub mod c05;
